@@ -85,6 +85,7 @@ type FragSpec struct {
 	Total    int
 	Data     []byte
 	SeqOff   int // added to the message's message_seq (fragments of messages that do not exist)
+	Type     byte // handshake type in the fragment header (0: the current message's)
 }
 
 // AlertError is returned when the other side sent an alert.
@@ -358,6 +359,9 @@ func (p *Peer) SendMsg(typ byte, body []byte, skipTranscript bool) error {
 				}
 				h := make([]byte, 12, 12+len(data))
 				h[0] = typ
+				if f.Type != 0 {
+					h[0] = f.Type
+				}
 				h[1], h[2], h[3] = byte(total>>16), byte(total>>8), byte(total)
 				fs := m.Seq + uint16(f.SeqOff)
 				h[4], h[5] = byte(fs>>8), byte(fs)
